@@ -22,6 +22,20 @@ fn main() {
         tfv::engine::install_panic_hook();
         std::process::exit(checks::misc::c14_emit(&ctx, n));
     }
+    if id == "C27-EMIT" {
+        let n: usize = args.get(2).and_then(|s| s.parse().ok()).unwrap_or(100);
+        let seed = std::env::var("VERIF_SEED").ok().and_then(|s| s.trim().parse::<i128>().ok()).map(|v| v as u64).unwrap_or(20260921);
+        tfv::engine::install_panic_hook();
+        std::process::exit(checks::python::c27_emit(seed, n));
+    }
+    #[cfg(feature = "threads")]
+    if id == "C24-WORKER" {
+        let index: u64 = args.get(2).and_then(|s| s.parse().ok()).unwrap_or(0);
+        let batches: usize = args.get(3).and_then(|s| s.parse().ok()).unwrap_or(60);
+        let seed = std::env::var("VERIF_SEED").ok().and_then(|s| s.trim().parse::<i128>().ok()).map(|v| v as u64).unwrap_or(20260921);
+        tfv::engine::install_panic_hook();
+        std::process::exit(checks::threads::c24_worker(seed, index, batches));
+    }
     let mut i = 2;
     while i < args.len() {
         match args[i].as_str() {
@@ -40,9 +54,10 @@ fn main() {
     }
     let seed = std::env::var("VERIF_SEED").ok().and_then(|s| s.trim().parse::<i128>().ok()).map(|v| v as u64).unwrap_or(20260921);
     let threads = std::env::var("VERIF_THREADS").ok().and_then(|s| s.parse().ok()).unwrap_or(16);
-    let scale = std::env::var("VERIF_SCALE").ok().and_then(|s| s.parse().ok()).unwrap_or(1.0);
+    let scale = tfv::runner::env_scale();
     let ctx = CheckCtx { property: id.clone(), tier, seed, replay, threads, scale };
     tfv::engine::install_panic_hook();
+    tfv::runner::start_memory_watchdog(24);
     let code = match id.as_str() {
         "C01" => checks::world::c01(&ctx),
         "C09" => checks::world::c09(&ctx),
@@ -65,6 +80,13 @@ fn main() {
         "C25" => checks::introspect::c25(&ctx),
         "C22" => checks::meta::c22(&ctx),
         "C23" => checks::meta::c23(&ctx),
+        #[cfg(feature = "threads")]
+        "C24" => checks::threads::c24(&ctx),
+        #[cfg(not(feature = "threads"))]
+        "C24" => {
+            eprintln!("C24 needs the harness built with --features threads (use ./check)");
+            2
+        }
         #[cfg(feature = "hooks")]
         "C06" => checks::lattice::c06(&ctx),
         #[cfg(feature = "hooks")]
